@@ -190,6 +190,14 @@ func (e *Engine) step(g *G) {
 	}
 	f := e.top(g)
 	instr := f.block.Instrs[f.pc]
+	defer func() {
+		if r := recover(); r != nil {
+			if _, ok := r.(goPanicSignal); ok {
+				return // g.panicking is set; unwinding starts at the next step
+			}
+			panic(r)
+		}
+	}()
 	e.exec(g, f, instr)
 }
 
@@ -308,8 +316,7 @@ func (e *Engine) makeGlobal(gl *ssa.Global) *Object {
 	o := e.newObject(elem, zero(elem), gl.String())
 	e.inInit = saved
 	e.globals[gl] = o
-	// keep snapshot arrays in step
-	e.initSnap = append(e.initSnap, o.V)
+	o.snap = o.V
 	return o
 }
 
@@ -332,27 +339,43 @@ func (e *Engine) ensureInit(pkg *ssa.Package) {
 	if skipInit[pkg.Pkg.Path()] {
 		return
 	}
+	objStart, mapStart := len(e.initObjs), len(e.initMaps)
+	for _, m := range pkg.Members {
+		if gl, ok := m.(*ssa.Global); ok {
+			if o := e.globals[gl]; o != nil && o.V != o.snap {
+				_ = o
+			}
+		}
+	}
 	savedInit := e.inInit
 	savedCur := e.cur
 	savedSteps := e.steps
 	e.inInit = true
 	g := &G{id: -1, name: "init:" + pkg.Pkg.Path()}
 	e.cur = g
+	savedTarget := e.initTarget
+	e.initTarget = initFn
 	e.callSync(g, initFn, nil)
+	e.initTarget = savedTarget
 	e.cur = savedCur
 	e.inInit = savedInit
 	e.steps = savedSteps
-	e.snapshotInit()
-}
-
-func (e *Engine) snapshotInit() {
-	e.initSnap = e.initSnap[:0]
-	for _, o := range e.initObjs {
-		e.initSnap = append(e.initSnap, o.V)
-	}
-	e.initMapSn = e.initMapSn[:0]
-	for _, m := range e.initMaps {
-		e.initMapSn = append(e.initMapSn, append([]mapEntry(nil), m.Entries...))
+	if !savedInit {
+		// outermost initialisation finished: snapshot what it created (and the
+		// package's own globals, which it assigned)
+		for _, o := range e.initObjs[objStart:] {
+			o.snap = o.V
+		}
+		for _, m := range e.initMaps[mapStart:] {
+			m.snap = append([]mapEntry(nil), m.Entries...)
+		}
+		for _, mem := range pkg.Members {
+			if gl, ok := mem.(*ssa.Global); ok {
+				if o := e.globals[gl]; o != nil {
+					o.snap = o.V
+				}
+			}
+		}
 	}
 }
 
